@@ -30,7 +30,7 @@ from vf.sym import MV, SymName, SymRef, SymInt, SymDict, NONEVAL, PyExc, EngineL
 from vf.spec import Z3Ops, P, View, PO, POK, VP, KWO, VK
 from vf.interp import Interp, Inst, IClass
 from vf.harness import VC, mk_sig, mk_call, sig_view, pview, run_unit
-from .common import (clause, REGISTRY, install_concile_summary, sp_view, sp_params, bucket_consistent, sp_fields,
+from .common import (FRAME_PROPS, clause, REGISTRY, install_concile_summary, sp_view, sp_params, bucket_consistent, sp_fields,
                      names_distinct_term, name_term, stands_of, ua_denotes, ua_follows_goal, ua_return_goal)
 
 U = '_signatures.merge'
@@ -51,8 +51,8 @@ C_UA = clause(U, 'post:ua_follows', ['C11'], 'B')
 C_SRC_WF = clause(U, 'post:sources_wf', ['C08'], 'B')
 C_SRC_EXACT = clause(U, 'post:sources_exact', ['C08'], 'B')
 C_DEPTHS = clause(U, 'post:depths_min', ['C08'], 'B')
-C_FRAME = clause(U, 'frame:inputs_unchanged', ['C16', 'C08'], 'B')
-C_FRESH = clause(U, 'frame:fresh_sources', ['C16', 'C08'], 'B')
+C_FRAME = clause(U, 'frame:inputs_unchanged', FRAME_PROPS, 'B')
+C_FRESH = clause(U, 'frame:fresh_sources', FRAME_PROPS, 'B')
 CM_BC = clause(UM, 'post:bucket_consistent', ['C01', 'C09'], 'B', internal=True)
 CM_SOUND_PURE = clause(UM, 'post:sound_pure', ['C01'], 'B', internal=True)
 CM_SOUND_MIXED = clause(UM, 'post:sound_mixed', ['C01'], 'B', internal=True)
